@@ -364,7 +364,9 @@ fn record(out: &str, a: &Args) {
                         Ent { k: "se".into(), a: b, b: b.wrapping_add(len) & m, d, r }
                     }
                     3 => {
-                        let b = addr(&mut rng);
+                        // sometimes right below the top of the address space, so that begin + length
+                        // just fits, leaves the address space, or leaves u64
+                        let b = if rng.chance(1, 8) { m - rng.below(0x100) } else { addr(&mut rng) };
                         let len = if wild && rng.chance(1, 6) { 0 } else { 1 + rng.below(0x100) };
                         Ent { k: "slen".into(), a: b, b: len, d, r }
                     }
